@@ -30,7 +30,7 @@ def mixcdf : Handler := fun j => do
 /-- {"cmd":"c15.clip","xs":[..]} → clipped samples -/
 def clipH : Handler := fun j => do
   let xs ← fieldFs j "xs"
-  pure <| Json.mkObj [("ys", putFs (xs.map sample_clip))]
+  pure <| Json.mkObj [("ys", putFs (xs.map delay_clip))]
 
 /-- {"cmd":"c15.normal","z":ndtri(q),"scale":..,"loc":..,"z999":..,"z001":..} → quantile, component bracket, grid bounds -/
 def normal : Handler := fun j => do
